@@ -28,7 +28,7 @@ use std::num::ParseFloatError;
 use std::str::FromStr;
 use uuid::Uuid;
 
-use crate::{BearerToken, ResourceIdentifier, SafeLong};
+use crate::{BearerToken, DoubleKey, ResourceIdentifier, SafeLong};
 
 /// Format trait for the Conjure PLAIN format.
 pub trait Plain {
@@ -88,6 +88,13 @@ impl Plain for f64 {
         } else {
             fmt::Display::fmt(self, fmt)
         }
+    }
+}
+
+impl Plain for DoubleKey {
+    #[inline]
+    fn fmt(&self, fmt: &mut fmt::Formatter<'_>) -> fmt::Result {
+        Plain::fmt(&self.0, fmt)
     }
 }
 
@@ -207,6 +214,15 @@ impl FromPlain for f64 {
             "-Infinity" => Ok(f64::NEG_INFINITY),
             s => s.parse(),
         }
+    }
+}
+
+impl FromPlain for DoubleKey {
+    type Err = ParseFloatError;
+
+    #[inline]
+    fn from_plain(s: &str) -> Result<DoubleKey, ParseFloatError> {
+        f64::from_plain(s).map(DoubleKey)
     }
 }
 
